@@ -74,7 +74,7 @@ def runs(rng, tier):
                 out.append(one(rng, method, pool, 'err' if pool == 0 else rng.choice(['err', 'throw', 'early'])))
         out.append(one(rng, rng.choice(list(METHODS)), rng.below(2), 'normal', size='big'))
         out.append(one(rng, rng.choice(['new_task', 'continuation', 'suspend_resume']), 0, 'normal', size='many'))
-        for method in ('continuation', 'new_task', 'suspend_resume'):
+        for method in ('continuation', 'new_task', 'suspend_resume') * 2:
             out.append(one(rng, method, 0, 'normal', size='crowd'))
     return out
 
